@@ -38,6 +38,7 @@ type LoopSpec struct {
 	Decreases  []*Clause
 	Used       bool
 	Complete   *BodyCall // "complete": the loop is left only when its range / condition is exhausted
+	NoBreak    *BodyCall // "no_break": the loop is not left by break (returns in the body are allowed)
 }
 
 type Effect struct {
@@ -91,6 +92,7 @@ type Contracts struct {
 	Funcs       map[string]*Contract
 	NonNilField map[string]bool // "T.f"
 	NonNilElem  map[string]bool // type string of the slice/map type
+	NonNilFieldProps map[string][]string
 	NonNilBoxed map[string]bool // pointer types never boxed as typed nil in interfaces
 	NlfreeString map[string]bool // types whose %s/%v rendering never contains a line break
 	Specs       map[string]*SpecFunc
@@ -126,6 +128,7 @@ func loadContracts(dir string) (*Contracts, error) {
 		Funcs:       map[string]*Contract{},
 		NonNilField: map[string]bool{},
 		NonNilElem:  map[string]bool{},
+		NonNilFieldProps: map[string][]string{},
 		NonNilBoxed: map[string]bool{},
 		NlfreeString: map[string]bool{},
 		Specs:       map[string]*SpecFunc{},
@@ -298,6 +301,14 @@ func (cs *Contracts) parseFile(file, src string) {
 			} else {
 				cur.Decreases = append(cur.Decreases, c)
 			}
+		case "no_break":
+			if curLoop == nil {
+				cs.errf(file, ln, "no_break outside loop block")
+				continue
+			}
+			props, _ := splitProps(rest)
+			curLoop.NoBreak = &BodyCall{Text: "no_break", Props: props}
+			pendingProps = append(pendingProps, &curLoop.NoBreak.Props)
 		case "complete":
 			// complete [props]: every element is processed - no break / return leaves the loop early
 			if curLoop == nil {
@@ -494,8 +505,17 @@ func (cs *Contracts) parseFile(file, src string) {
 				}
 			}
 		case "nonnil":
-			for _, f := range strings.Fields(rest) {
+			// nonnil T.f ... [also Cxx Cyy]: the extra properties are added to the obligations of these fields
+			fl := rest
+			var also []string
+			if j := strings.Index(rest, " also "); j > 0 {
+				fl, also = rest[:j], strings.Fields(rest[j+6:])
+			}
+			for _, f := range strings.Fields(fl) {
 				cs.NonNilField[f] = true
+				if len(also) > 0 {
+					cs.NonNilFieldProps[f] = append(cs.NonNilFieldProps[f], also...)
+				}
 			}
 			cur = nil
 		case "nonnil_elems":
